@@ -175,7 +175,32 @@ def inverse_rules(repo, rep):
         check_equal(rep, 'R-WIRE', 'R-WIRE::geodepy/geodesy.py::vincinv_utm::%s' % names[i], w, val.items[i], ref.items[i], texts[i])
 
 
+def hemisphere_of_point2_rule(repo, rep):
+    """geo2grid chooses the false northing from the sign of the computed latitude and says which hemisphere it chose; the direct computation
+    returns that northing to a caller who gave - and gets back no - hemisphere label.  The label must therefore be looked at: a second point
+    ON the equator (latitude +0.0 or 1e-10 on the other side) comes back with the other hemisphere's northing (0 instead of 10 000 000)."""
+    f = repo.func('geodepy.geodesy', 'vincdir_utm')
+    key = 'R-WIRE::geodepy/geodesy.py::vincdir_utm::hemisphere-of-point-2'
+    labels = []
+    for n in ast.walk(f.node):
+        if isinstance(n, ast.Assign) and isinstance(n.value, ast.Call) and getattr(n.value.func, 'id', '') == 'geo2grid' and isinstance(n.targets[0], ast.Tuple) \
+                and n.targets[0].elts and isinstance(n.targets[0].elts[0], ast.Name):
+            labels.append((n, n.targets[0].elts[0].id))
+    if not labels:
+        rep.undecided('R-WIRE', key, where(f, f.node), 'no unpacking of a geo2grid result found in vincdir_utm')
+        return
+    for st, name in labels:
+        reads = [x for x in ast.walk(f.node) if isinstance(x, ast.Name) and x.id == name and isinstance(x.ctx, ast.Load)]
+        if reads:
+            rep.holds('R-WIRE', key, where(f, reads[0]), 'the hemisphere label returned by geo2grid (`%s`) is looked at' % name)
+        else:
+            rep.violated('R-WIRE', key, where(f, st), 'vincdir_utm binds the hemisphere label geo2grid returns to `%s` and never reads it: the northing of point 2 is handed back in whatever '
+                         'hemisphere convention geo2grid chose - for a second point on the equator the other one' % name,
+                         expected='the northing expressed in the hemisphere of point 1', actual='%s unused' % name)
+
+
 def direct_rules(repo, rep):
+    hemisphere_of_point2_rule(repo, rep)
     f = repo.func('geodepy.geodesy', 'vincdir_utm')
     rep.analysed(f)
     w = where(f, f.node)
